@@ -1,4 +1,5 @@
 import Hls.Props.C08
+import Hls.Props.C08Text
 #print axioms Hls.C08.checkRanges_iff
 #print axioms Hls.C08.validate_ranges_iff
 #print axioms Hls.C08.resolveRange_eq
@@ -9,3 +10,5 @@ import Hls.Props.C08
 #print axioms Hls.C08.not_chained_rejected
 #print axioms Hls.C08.resolved_range_text
 #print axioms Hls.C08.map_range_verbatim
+#print axioms Hls.C08T.ranges_text
+#print axioms Hls.C08T.durations_text
